@@ -157,6 +157,9 @@ pub fn build(prop: &str, seed: u64, hist: u64, rng: &mut Rng, ids: &[String]) ->
             if rng.chance(25) {
                 profile = "bogus".into();
                 fault_cfg.insert("bogus_ids".into(), 300);
+            } else if rng.chance(8) {
+                profile = "badscript".into();
+                fault_cfg.insert("script_undef".into(), 300);
             } else if rng.chance(20) {
                 profile = "corrupt".into();
                 fault_cfg.insert("corrupt".into(), 250);
@@ -320,6 +323,19 @@ pub fn draw_forge(w: &World, rng: &mut Rng, mid: MsgId, from: usize, byz: Option
     if let Some(r) = cfg.get("equivocate") {
         if (rng.u32() % 1000) < *r {
             return Some(vec![ForgeOp::OwnRewrite { n: rng.u32() % 64 }]);
+        }
+        return None;
+    }
+    if let Some(r) = cfg.get("script_undef") {
+        // a script the validator rejects for several reasons at once (C20: which one is reported, and in what order,
+        // must not depend on the run)
+        if (rng.u32() % 1000) < *r {
+            let k = rng.below(100);
+            let s = format!(
+                "(seq {} (seq (call %init_peer_id% (\"svc\" \"u\") [undef_a{k} undef_b{k} undef_c{k}]) (fold undef_i{k} it{k} (seq (call %init_peer_id% (\"svc\" \"w\") [undef_d{k}]) (next it{k})))))",
+                w.sc.script
+            );
+            return Some(vec![ForgeOp::Script(s)]);
         }
         return None;
     }
